@@ -445,6 +445,10 @@ func NewWorldIn(dir, converterBin string, populate bool) (*World, error) {
 			if err := os.Symlink(converterBin, filepath.Join(w.ConvDir, "conv2")); err != nil {
 				return nil, err
 			}
+			// a third one whose process dies the first time it is handed a stream (the job tries once more)
+			if err := os.Symlink(converterBin, filepath.Join(w.ConvDir, "convflaky")); err != nil {
+				return nil, err
+			}
 		}
 	}
 	if err := w.start(); err != nil {
